@@ -62,7 +62,7 @@ mod verif_conv {
                 let r = <Vec<$t> as $tr>::try_to_value(ManuallyDrop::into_inner(v));
                 match r {
                     Ok(MetricValue::$variant(ref x)) => {
-                        assert!(len > 0, "[C01,C02] an accepted packed list has at least one value");
+                        assert!(len > 0, "[C01,C02,C03] an accepted packed list has at least one value (an empty list is an invalid value: rejected, never handed to the sink)");
                         assert!(x.as_ptr() == p && x.len() == len && x.capacity() == cap, "[C02] packed list keeps its buffer: same length, same order, same elements");
                     }
                     Ok(_) => assert!(false, "[C02] packed list keeps its element type"),
@@ -104,15 +104,15 @@ mod verif_conv {
     float!(c02_hist_f64, ToHistogramValue);
     //@H name=c02_dist_f64 props=C01,C02,C20 fn=ToDistributionValue<f64> :: f64 distribution value is passed on bit-identically
     float!(c02_dist_f64, ToDistributionValue);
-    //@H name=c02_timer_vec_u64 props=C01,C02,C20 fn=ToTimerValue<Vec<u64>> :: packed u64 timers: same buffer (any length/capacity), empty rejected
+    //@H name=c02_timer_vec_u64 props=C01,C02,C03,C20 fn=ToTimerValue<Vec<u64>> :: packed u64 timers: same buffer (any length/capacity), empty rejected
     packed!(c02_timer_vec_u64, ToTimerValue, u64, PackedUnsigned);
-    //@H name=c02_hist_vec_u64 props=C01,C02,C20 fn=ToHistogramValue<Vec<u64>> :: packed u64 histograms: same buffer, empty rejected
+    //@H name=c02_hist_vec_u64 props=C01,C02,C03,C20 fn=ToHistogramValue<Vec<u64>> :: packed u64 histograms: same buffer, empty rejected
     packed!(c02_hist_vec_u64, ToHistogramValue, u64, PackedUnsigned);
-    //@H name=c02_hist_vec_f64 props=C01,C02,C20 fn=ToHistogramValue<Vec<f64>> :: packed f64 histograms: same buffer, empty rejected
+    //@H name=c02_hist_vec_f64 props=C01,C02,C03,C20 fn=ToHistogramValue<Vec<f64>> :: packed f64 histograms: same buffer, empty rejected
     packed!(c02_hist_vec_f64, ToHistogramValue, f64, PackedFloat);
-    //@H name=c02_dist_vec_u64 props=C01,C02,C20 fn=ToDistributionValue<Vec<u64>> :: packed u64 distributions: same buffer, empty rejected
+    //@H name=c02_dist_vec_u64 props=C01,C02,C03,C20 fn=ToDistributionValue<Vec<u64>> :: packed u64 distributions: same buffer, empty rejected
     packed!(c02_dist_vec_u64, ToDistributionValue, u64, PackedUnsigned);
-    //@H name=c02_dist_vec_f64 props=C01,C02,C20 fn=ToDistributionValue<Vec<f64>> :: packed f64 distributions: same buffer, empty rejected
+    //@H name=c02_dist_vec_f64 props=C01,C02,C03,C20 fn=ToDistributionValue<Vec<f64>> :: packed f64 distributions: same buffer, empty rejected
     packed!(c02_dist_vec_f64, ToDistributionValue, f64, PackedFloat);
 
     fn any_duration() -> (Duration, u64, u32) {
@@ -216,14 +216,14 @@ mod verif_conv {
     //@H name=c02_hist_vec_duration_3 props=C01,C02,C20 tier=thorough bound="list length 3 (unwind 6)" fn=ToHistogramValue<Vec<Duration>> :: packed Durations -> ns element-wise; overflow at any index rejects the list
     vec_duration!(c02_hist_vec_duration_3, ToHistogramValue, exact_ns, 3);
 
-    //@H name=c02_vec_duration_empty props=C01,C02,C20 fn=To{Timer,Histogram}Value<Vec<Duration>> :: an empty packed Duration list is rejected as invalid input (both kinds)
+    //@H name=c02_vec_duration_empty props=C01,C02,C03,C20 fn=To{Timer,Histogram}Value<Vec<Duration>> :: an empty packed Duration list is rejected as invalid input (both kinds)
     #[kani::proof]
     #[kani::unwind(3)]
     fn c02_vec_duration_empty() {
         let r1 = <Vec<Duration> as ToTimerValue>::try_to_value(Vec::new());
         let r2 = <Vec<Duration> as ToHistogramValue>::try_to_value(Vec::new());
-        assert!(matches!(r1, Err(ref e) if inv(e)), "[C01,C02] empty packed Duration timer list is rejected");
-        assert!(matches!(r2, Err(ref e) if inv(e)), "[C01,C02] empty packed Duration histogram list is rejected");
+        assert!(matches!(r1, Err(ref e) if inv(e)), "[C01,C02,C03] empty packed Duration timer list is rejected (never handed to the sink)");
+        assert!(matches!(r2, Err(ref e) if inv(e)), "[C01,C02,C03] empty packed Duration histogram list is rejected (never handed to the sink)");
         kani::cover!(true, "end");
         std::mem::forget(r1); std::mem::forget(r2);
     }
